@@ -182,6 +182,8 @@ template<typename R, typename... Args> struct Sys {
     std::vector<MSub> subs;                      // model: every subscription ever made in this history
     std::set<int> has_subject;                   // model: indices into U->all_keys that hold a subject
     bool c13;
+    std::vector<int> last_removed;               // keys (indices into U->all_keys) that the last checked shrink removed
+    bool light = false;                          // step(): after the operation only the cheap observations (the key itself, a full wildcard, exists, depth)
 
     void bad(const std::string &sig, const std::string &msg) { violation(sig, msg); }
     int all_index(const Path &p) { for (size_t i = 0; i < U->all_keys.size(); i++) if (U->all_keys[i] == p) return (int)i; return -1; }
@@ -293,6 +295,7 @@ template<typename R, typename... Args> struct Sys {
             for (size_t i = 0; i < subs.size(); i++) if (subs[i].pending && !handles[i].is_valid()) bad("shrink:pending-handle", fmt("after shrink(%s) the handle of the invalidated but not yet removed observer %zu reports invalid", pat_str(p).c_str(), i));
             if (!check || !c13) break;      // the removal rules are C13's clauses: not judged by the C06 run (which still compares every delivery after the shrink with the model)
             for (int k : after) if (!before.count(k)) bad("shrink:key-appeared", "shrink(" + pat_str(p) + ") made key " + path_str(U->all_keys[k]) + " appear");
+            last_removed.clear(); for (int k : before) if (!after.count(k)) last_removed.push_back(k);
             for (int k : before) if (!after.count(k)) {
                 const Path &gone = U->all_keys[k];
                 for (auto &s : subs) if (s.live || s.pending) { const Path &sk = U->sub_keys[s.key]; if (sk.size() >= gone.size() && std::equal(gone.begin(), gone.end(), sk.begin())) bad("shrink:live-key-removed", "shrink(" + pat_str(p) + ") removed key " + path_str(gone) + " although " + path_str(sk) + " still has a live subscription"); }
@@ -352,6 +355,14 @@ template<typename R, typename... Args> struct Sys {
             k += "|"; for (auto &s : subs) if (s.live) k += fmt("%d@%d,", s.obs, s.key);      // which of the history's observers are live (ids matter to the oracle only)
 
             if (full) examine();
+            if (light && o && o->kind == SUBSCRIBE) {
+                // a key subscribed again right after a shrink removed it: the new observer is reached through its own key, the key exists, depth() agrees
+                int pi = concrete_pattern(o->arg);
+                bool saved = c13; c13 = false; check_notify(pi, {}, "re-subscribed after shrink: "); c13 = saved;
+                if (!router->exists(K.sub_rk(o->arg))) bad("exists:live-key-missing", "key " + path_str(U->sub_keys[o->arg]) + " was subscribed again after a shrink had removed it, but exists() is false");
+                size_t maxlen = 0; for (int kk : stored()) maxlen = std::max(maxlen, U->all_keys[kk].size());
+                if (router->depth() != 1 + maxlen) bad("depth", fmt("depth() == %zu after a re-subscribe, expected %zu", router->depth(), 1 + maxlen));
+            }
             bool has_shrink = o && o->kind == SHRINK; for (auto &p : h) has_shrink |= p.kind == SHRINK;
             if (full && c13 && has_shrink) {
                 // "shrink never changes what notify delivers": the same history without its shrink calls must deliver exactly the same, pattern by pattern (no reference model involved)
@@ -396,6 +407,18 @@ template<typename R, typename... Args> void bfs(int maxlive, bool c13, const cha
             std::string k = sys.step(h, &o, okp, false);
             if (!okp) continue;
             shm->transitions++; shm->evaluations++;
+            if (o.kind == SHRINK && !sys.last_removed.empty()) {
+                // "shrink ... and re-subscribe": whatever this shrink removed is subscribed again at once (the state it leads to may look like one that was reached without any shrink)
+                std::vector<int> removed = sys.last_removed;
+                auto h2 = h; h2.push_back(o);
+                for (int rk : removed) for (int si = 0; si < (int)U->sub_keys.size(); si++) if (U->sub_keys[si] == U->all_keys[rk]) {
+                    Op s{SUBSCRIBE, si}; bool ok2;
+                    mark(hs(h2, &s) + " [re-subscribe]");
+                    sys.light = true; sys.step(h2, &s, ok2, false); sys.light = false;
+                    if (ok2) { shm->transitions++; shm->evaluations++; }
+                }
+            }
+            sys.last_removed.clear();
             if (seen.insert(canon(k)).second) {
                 shm->states++;
                 mark(hs(h, &o) + " [examine]");
@@ -474,9 +497,10 @@ void replay(const std::string &hist) {
     build_universe(thorough());
     std::string body = hist.substr(hist.find(':') + 1);
     size_t ex = body.find("[examine]"); bool full = true; if (ex != std::string::npos) body = body.substr(0, ex);
+    bool light = false; size_t rs = body.find("[re-subscribe]"); if (rs != std::string::npos) { body = body.substr(0, rs); light = true; full = false; }
     std::vector<Op> h;
     if (!parse_ops(body, h)) { violation("replay:parse", "cannot parse ops in " + hist); return; }
-    auto go = [&](auto sys) { sys.maxlive = maxlive; sys.c13 = c13; bool okp; if (h.empty()) { sys.step({}, nullptr, okp, full); return; } Op last = h.back(); std::vector<Op> pre(h.begin(), h.end() - 1); sys.step(pre, &last, okp, full); };
+    auto go = [&](auto sys) { sys.maxlive = maxlive; sys.c13 = c13; sys.light = light; bool okp; if (h.empty()) { sys.step({}, nullptr, okp, full); return; } Op last = h.back(); std::vector<Op> pre(h.begin(), h.end() - 1); sys.step(pre, &last, okp, full); };
     std::string r = rn, s = sig;
     if (r == "plain") {
         if (s == "void") go(Sys<SubjectRouter>{}); else if (s == "int") go(Sys<SubjectRouter, int>{}); else if (s == "cstr") go(Sys<SubjectRouter, const std::string &>{});
